@@ -87,7 +87,7 @@ func c20RunBatch(bin, batch string, rounds int) ([]c20Outcome, error) {
 		if dec.Decode(&r) != nil {
 			break
 		}
-		id := r.Impl + "|" + r.Method
+		id := r.Impl + "|" + r.Method + "|" + r.Variant
 		byID[id] = &c20Outcome{res: r}
 		order = append(order, id)
 	}
@@ -203,8 +203,12 @@ func runC20(c *kc.Ctx) {
 			continue
 		}
 		for _, o := range r.outs {
-			id := o.res.Impl + "|" + o.res.Method
-			cls, known := class[id]
+			tid := o.res.Impl + "|" + o.res.Method // key into the write-set table
+			id := tid
+			if o.res.Variant != "" && o.res.Variant != o.res.Impl {
+				id = tid + "|" + o.res.Variant // finding key: the instance it ran on
+			}
+			cls, known := class[tid]
 			c.Eval(o.res.Calls)
 			c.Program(1)
 			c.CountKind("scenario:" + o.res.Impl)
@@ -213,14 +217,14 @@ func runC20(c *kc.Ctx) {
 				continue
 			}
 			c.Nontrivial("c20|" + r.batch + "|" + id)
-			seen[id] = true
+			seen[tid] = true
 			if len(seen)%40 == 1 {
 				c.Sample(map[string]any{"batch": r.batch, "impl": o.res.Impl, "method": o.res.Method, "table_class": cls, "calls": o.res.Calls, "race_reports": o.races, "result_mismatches": o.res.Mismatches})
 			}
-			rep := map[string]any{"batch": r.batch, "impl": o.res.Impl, "method": o.res.Method, "table_class": cls, "calls": o.res.Calls,
+			rep := map[string]any{"batch": r.batch, "impl": o.res.Impl, "method": o.res.Method, "variant": o.res.Variant, "table_class": cls, "calls": o.res.Calls,
 				"race_reports": o.races, "result_mismatches": o.res.Mismatches, "panics": o.res.Panics, "first_report": o.first, "sample": o.res.Sample}
 			if !known && o.res.Impl != "(setup)" {
-				c.Unshown("correspondence:effects-table:missing:"+id, "scenario without a write-set table entry: "+id, rep)
+				c.Unshown("correspondence:effects-table:missing:"+tid, "scenario without a write-set table entry: "+tid, rep)
 			}
 			raced := o.races > 0
 			bad := o.res.Mismatches > 0 || o.res.Panics > 0
